@@ -12,7 +12,7 @@ struct C07 {
   std::vector<Act> m;      // model actions, index = tag
   long T = 0;              // current tick (== s.tick)
   bool in_process = false;
-  int fired = 0, maxpending = 0;
+  int fired = 0, maxpending = 0, huge = 0;
   explicit C07(Ctx &cx) : c(cx), s(cx) {}
 
   int nactive() const { int n = 0; for (auto &a : m) n += a.active; return n; }
@@ -117,9 +117,17 @@ void run_ops(Ctx &c, C07 &x, bool enumerated, int depth) {
       static const uint16_t W[5] = {30, 14, 40, 8, 8};
       uint32_t op = c.t.weighted(W);
       if (op == 0) {
-        bool big = c.t.chance(24);
-        uint32_t st = big ? c.t.below(1u << 20) : SMALL[c.t.below(6)];
-        uint32_t cy = big ? c.t.below(1u << 20) : SMALL[c.t.below(6)];
+        bool big = c.t.chance(c.param == 1 ? 90 : 24);
+        uint32_t st, cy;
+        if (big && c.param == 1) {   // mode huge-ticks: legal tick counts around 2^16, 2^31 and 2^32 - 1 (a 60 s heartbeat on a 48 MHz timer is 2 880 000 000 ticks)
+          static const uint32_t MARK[6] = {0x10000u, 0x7FFFFFFFu, 0x80000000u, 0xABA95000u, 0xFFFFFFF0u, 0x1000000u};
+          auto huge = [&]() -> uint32_t { uint32_t m = MARK[c.t.below(6)]; return m - 8 + c.t.below(16); };
+          st = c.t.chance(40) ? 0 : huge(); cy = c.t.chance(128) ? 0 : c.t.coin() ? huge() : SMALL[c.t.below(6)]; if (st == 0 && cy == 0) st = huge();
+          x.huge++;
+        } else {
+          st = big ? c.t.below(1u << 20) : SMALL[c.t.below(6)];
+          cy = big ? c.t.below(1u << 20) : SMALL[c.t.below(6)];
+        }
         int script = c.t.chance(64) ? 1 + (int)c.t.below(2) : 0;
         uint32_t sa = 0, sb = 0;
         if (script == 1) { sa = SMALL[c.t.below(6)]; sb = SMALL[c.t.below(6)]; }
@@ -143,6 +151,7 @@ void run_ops(Ctx &c, C07 &x, bool enumerated, int depth) {
   if (x.maxpending >= 2 && x.fired >= 1) { c.nontrivial = true; }
   c.cls(x.maxpending >= 2 ? "two-or-more-pending" : "at-most-one-pending");
   if (x.fired) c.cls("callback-fired");
+  if (x.huge) c.cls(x.fired ? "action-2^16..2^32-ticks-away-pending-and-callback-fired" : "action-2^16..2^32-ticks-away-pending");
 }
 
 void case_enum(Ctx &c) {
@@ -191,13 +200,14 @@ void case_conv(Ctx &c) {
 Registrar reg(Prop{
     "C07",
     "Cases are operation sequences over {create(start,cycle[,callback script]), delete(id), tick+process, multi-tick jumps} on the real timer manager with pool sizes 1..16, "
-    "generated (a) exhaustively over a 17-letter alphabet x pools 1..3 to the depth bound and (b) randomly up to 400 ops, plus (c) tick conversions for a (frequency, unit, time range). "
+    "generated (a) exhaustively over a 17-letter alphabet x pools 1..3 to the depth bound and (b) randomly up to 400 ops, plus (c) tick conversions for a (frequency, unit, time range) and (d) mode huge-ticks: the random sequences with a third of the start/cycle values around 2^16, 2^24, 2^31 and 2^32-1 ticks. "
     "A sequence is non-trivial when at least two actions were pending simultaneously and at least one callback fired; a conversion case when the frequency neither divides nor is divided by the unit and at least one exact point was checked. "
     "Distinct = distinct decoded choice sequence (64-bit hash).",
     {
         Mode{"enum", case_enum, true, 0, 0, 5, 6, 0, 0},
         Mode{"random", case_random, false, 3000000, 60000000, 0, 0, 300, 600},
         Mode{"conv", case_conv, false, 300000, 4000000, 300, 3000, 16, 16},
+        Mode{"huge-ticks", case_random, false, 400000, 8000000, 1, 1, 300, 600},
     },
     {"timer driver = down counter as in drv_timer_swcycle.c; one COTmrService call = one tick; every tick is followed by COTmrProcess (deferred processing is C08)",
      "a delete issued by a callback for a sibling action due in the same step may return 0 (sibling does not run) or <0 (sibling runs)",
